@@ -61,6 +61,12 @@ def predicate(name, r):
         return "t.edit" in ks and len(trace) >= 30 and any(st.get("op") in ("undo", "redo") for st in trace)
     if name == "tree_edit_and_undo":
         return any(k.startswith("r.") for k in ks) and any(st.get("op") in ("undo", "redo") for st in trace)
+    if name == "dedup_counter_used":
+        for st in trace:
+            for e in st.get("edits") or []:
+                if e.get("k") == "c.dadd" or (e.get("k") in ("o.new", "a.new") and e.get("t") == "dcnt") or "DedupCounter" in (e.get("y") or ""):
+                    return True
+        return False
     if name == "undo_after_sync":
         synced = False
         for st in trace:
